@@ -343,6 +343,24 @@ theorem handleResponse_tracked (env : Nat → Content) (cap : Nat) (st : RepairS
       | last _ => exact h
       | root _ _ => exact h
 
+/- Full statement (`not_derailed`): on every fair stream of responses / timeouts that eventually contains
+   a correct answer to each outstanding request, an active repair completes, whatever is interleaved.
+   Proved: the safety core that makes the fairness argument go through — an invalid response to an
+   outstanding request leaves that request outstanding *with its retry timer pending* and changes
+   nothing else, and the two invariants (`Tracked`, `RootsKnown`) survive every step. Not proved: the
+   end-to-end progress measure over fair streams (and the target-peer choice, which is not modelled);
+   the oracle `repair-derailed` of `harness/src/bin/c14.rs` checks completion on the real code. -/
+
+/-- **Cannot be derailed (safety core).** -/
+theorem not_derailed_partial (env : Nat → Content) (cap : Nat) (st : RepairSt) (store : Store) (resp : Resp)
+    (ht : Tracked st) (hk : RootsKnown st) (hout : resp.req ∈ st.outstanding) (hv : ¬ Valid st resp) :
+    let st' := (handleResponse env cap st store resp).1
+    resp.req ∈ st'.outstanding ∧ resp.req ∈ st'.timeouts ∧ st' = st ∧
+      (handleResponse env cap st store resp).2.1 = store ∧ Tracked st' ∧ RootsKnown st' := by
+  have h := invalid_response_inert env cap st store resp hk hv
+  simp only [h]
+  exact ⟨hout, ht _ hout, trivial, trivial, ht, hk⟩
+
 /-! ### the `unreachable!` of the shred arm is unreachable -/
 
 theorem rootGet_rootSet (m : List ((Bid × Nat) × Nat)) (k k' : Bid × Nat) (v : Nat) :
